@@ -563,6 +563,8 @@ impl<'v> Module<'v> {
         // slot-index in the code, and we don't walk into them, so don't know if
         // they are used.
         let freezer = Freezer::new(&frozen_heap);
+        #[cfg(starlark_verif)]
+        crate::verif::emit("freeze_begin", heap.allocated_bytes() as i64, 0, 0);
         // FIXME(JakobDegen): Fix the `Freezer` API to make it impossible to forget this
         for r in heap.referenced_heaps() {
             frozen_heap.add_reference(&r);
@@ -593,6 +595,8 @@ impl<'v> Module<'v> {
         for frozen_def in freezer.frozen_defs.borrow().as_slice() {
             frozen_def.post_freeze(frozen_module_ref, heap, freezer.heap);
         }
+        #[cfg(starlark_verif)]
+        crate::verif::emit("freeze_end", frozen_heap.allocated_bytes() as i64, 0, 0);
 
         Ok(FrozenModule {
             heap: frozen_heap.into_ref_impl(name, Some(heap.peak_allocated_bytes())),
